@@ -118,6 +118,16 @@ JudgeCall(s, e) ==
   \cup (IF ExpectOK(e) /\ e.ret = "err" THEN {"C01/CallRejected/" \o e.op} ELSE {})
   \cup (IF ~ExpectOK(e) /\ e.ret = "ok" THEN {"C14/AttachmentSourceNotReported"} ELSE {})
 
+(* C14: a destination fault is reported by the call it hits; nothing panics; what the
+   destination accepted up to that return is a prefix of the fault-free output *)
+JudgeSink(e) ==
+  (IF \E i \in DOMAIN e.rets : e.rets[i] = "panic" THEN {"C14/Panic"} ELSE {})
+  \cup (IF ~e.fired THEN {}
+        ELSE (IF e.firedCall = 0 THEN (IF e.newret = "err" THEN {} ELSE {"C14/NotReported/NewWriter"})
+              ELSE IF e.firedCall <= Len(e.rets) /\ e.rets[e.firedCall] = "err" THEN {} ELSE {"C14/NotReported/Call"})
+             \cup (IF e.isPrefix THEN {} ELSE {"C14/AcceptedNotPrefix"}))
+JudgeAttSrc(e) == IF e.ret = "err" THEN {} ELSE IF e.ret = "panic" THEN {"C14/Panic"} ELSE {"C14/AttachmentSourceNotReported"}
+
 (* ---------------------------------------------------------------- machine *)
 Step(s, e) ==
   CASE e.ev = "Run"  -> NewRun(e)
@@ -133,6 +143,8 @@ Judge(s, e) ==
     [] e.ev = "Lex"    -> JudgeLex(s, e)
     [] e.ev = "Scan"   -> JudgeScan(s, e)
     [] e.ev = "Retain" -> JudgeRetain(s, e)
+    [] e.ev = "Sink"   -> JudgeSink(e)
+    [] e.ev = "AttSrc" -> JudgeAttSrc(e)
     [] OTHER -> {}
 
 Init == l = 1 /\ st = NoRun /\ rej = <<>>
